@@ -7,6 +7,8 @@ Model driver for C12 (diagnostics positions). Requests (one per line):
       → `panic:<kind>` or `ok w=<width> q=<idx,idx,…> u=<spaces,carets|none> <xhex rendered text>`
 * `trace <faultIp> <faultInTry 0|1> <ip:callee:inTry>*`   call chain outermost first, then a fault
       → `caught` or `uncaught <chunk:ip>*`
+* `segs <seg> / <seg> …`   entries separated by native re-entries, innermost first;
+  seg = `<failIp> <failInTry> <adaptorIp|-> <ip:callee:inTry>*` → same as `trace`
 * `unwind <allow 0|1> <chunk> <ip> <chunk:retIp:catch:barrier>*`   raw `pop_call_stack_on_error`
       → same as `trace`
 * `compile <root sl:sc:el:ec> <steps…>`   span-stack model; steps: `o<n>` op, `n<n>` op without
@@ -108,6 +110,30 @@ def handleTrace (fs : List String) : String :=
     | _, _, _ => "bad-request"
   | _ => "bad-request"
 
+/-- `segs <seg> / <seg> / …` innermost first; seg = `<failIp> <failInTry> <adaptorIp|-> <ip:callee:inTry>*` -/
+def parseSeg (fs : List String) : Option Trace.Seg :=
+  match fs with
+  | f :: t :: a :: cs =>
+    let calls := cs.map (fun s => match nats s ":" with
+      | some [ip, c, t] => some ({ ip := ip, callee := c, inTry := t == 1 } : Trace.Call)
+      | _ => none)
+    match f.toNat?, t.toNat?, allSome calls with
+    | some f, some t, some calls =>
+      if a == "-" then some { calls := calls, failIp := f, failInTry := t == 1 }
+      else (a.toNat?).map (fun a => { calls := calls, failIp := f, adaptorIp := some a, failInTry := t == 1 })
+    | _, _, _ => none
+  | _ => none
+
+def splitOnTok (sep : String) (fs : List String) : List (List String) :=
+  let r := fs.foldl (fun (acc : List (List String) × List String) t =>
+    if t == sep then (acc.2.reverse :: acc.1, []) else (acc.1, t :: acc.2)) ([], [])
+  (r.2.reverse :: r.1).reverse
+
+def handleSegs (fs : List String) : String :=
+  match allSome ((splitOnTok "/" fs).map parseSeg) with
+  | some segs => outcomeStr (Trace.predictSegs segs [])
+  | none => "bad-request"
+
 def handleUnwind (fs : List String) : String :=
   match fs with
   | a :: c :: ip :: frs =>
@@ -166,6 +192,7 @@ def handle (line : String) : String :=
   | "excerpt" :: rest => handleExcerpt rest
   | "trace" :: rest => handleTrace rest
   | "unwind" :: rest => handleUnwind rest
+  | "segs" :: rest => handleSegs rest
   | "compile" :: rest => handleCompile rest
   | _ => "bad-request"
 
